@@ -8,7 +8,7 @@
    [new_reader (finalize w) = Some r] : NewReader on the sections Finalize produced;  theorem 4 says
    that going through the byte image changes nothing ([finalize_reader]). *)
 From Coq Require Import NArith List Lia.
-Require Import Pk.IndexFormat Pk.IndexFormatCodec Pk.IndexFormatHosts Pk.IndexFormatWriter Pk.IndexFormatData Pk.IndexFormatPackets Pk.IndexFormatLookup Pk.IndexFormatScan Pk.IndexFormatAccepts Pk.IndexFormatTimes Pk.IndexFormatRefuted.
+Require Import Pk.IndexFormat Pk.IndexFormatCodec Pk.IndexFormatHosts Pk.IndexFormatWriter Pk.IndexFormatData Pk.IndexFormatPackets Pk.IndexFormatLookup Pk.IndexFormatScan Pk.IndexFormatAccepts Pk.IndexFormatTimes Pk.IndexFormatFits Pk.IndexFormatRefuted.
 Import ListNotations.
 Open Scope N_scope.
 
@@ -34,6 +34,17 @@ Proof. exact decode_encode_file. Qed.
 
 Theorem C01_finalize_through_bytes : forall w, fits_file (finalize w) -> finalize_reader w = new_reader (finalize w).
 Proof. intros w H. unfold finalize_reader. now rewrite (decode_encode_file _ H). Qed.
+
+(* fits_file of a written file from explicit bounds: the limits of the format at which the Go code refuses
+   (2^32 imports / streams, 2^16 host groups) and sizes below 2^64; input ids < 2^64, ports < 2^16, packet indexes < 2^64 *)
+Theorem C01_written_file_fits : forall gcap L w,
+  16 < gcap <= 4 * P16 ->
+  Forall (fun ids => wf_meta (snd ids)) L -> Forall (fun ids => fst ids < P64 /\ input_ok (snd ids)) L ->
+  add_streams gcap new_writer L = Some w ->
+  lenN (w_imports w) <= P32 -> lenN (w_streams w) <= P32 -> lenN (w_groups w) <= P16 -> w_ref w < P64 ->
+  lenN (w_data w) < P64 -> lenN (f_names (finalize w)) < P64 -> lenN (encode_file (finalize w)) < P64 ->
+  fits_file (finalize w).
+Proof. exact finalize_fits. Qed.
 
 (* ---------------- 5. host tables, for every group capacity ---------------- *)
 (* group_ok gcap g: not empty, no duplicates, all hosts of the group's size, size * (count-1) < gcap *)
